@@ -606,3 +606,84 @@ Definition run_pyramid_multi (rowcos colcos : v3) (srcs : list src_level) (pix :
                                       VL [VZ Rl; VZ Cl; VQ a; VQ b;
                                           vaff (tiled_geometry org rowcos colcos a b None)] end) ls))
        (pyramid_multi srcs pix).
+
+(* ====================================================================== *)
+(* 11. volumes rearranged through the Volume API before they are encoded    *)
+(*     (volume.py permute_spatial_axes / swap_spatial_axes / flip_spatial;  *)
+(*     to_patient_orientation = flip_spatial then permute_spatial_axes).    *)
+(*     The model has value semantics: the arrays these calls return are     *)
+(*     numpy VIEWS of the caller's memory (transposed / negative strides);  *)
+(*     memory layout, dtype and transfer syntax are not inputs of the model *)
+(* ====================================================================== *)
+Open Scope Z_scope.
+(* a volume in component form: position, axis directions, spacings, array *)
+Record qvol := QVol { q_pos : v3; q_d0 : v3; q_d1 : v3; q_d2 : v3;
+                      q_s0 : Q; q_s1 : Q; q_s2 : Q; q_arr : list plane }.
+Definition qvol_aff (V : qvol) : aff :=
+  vol_aff (q_pos V) (q_d0 V) (q_d1 V) (q_d2 V) (q_s0 V) (q_s1 V) (q_s2 V).
+Definition arr_shape (arr : list plane) : Z * Z * Z :=
+  (Z.of_nat (length arr), Z.of_nat (length (hd [] arr)), Z.of_nat (length (hd [] (hd [] arr)))).
+Definition vox (arr : list plane) (i j k : Z) : Z :=
+  nth (Z.to_nat k) (nth (Z.to_nat j) (nth (Z.to_nat i) arr []) []) 0.
+Definition build3 (n0 n1 n2 : Z) (f : Z -> Z -> Z -> Z) : list plane :=
+  map (fun i => map (fun j => map (fun k => f i j k) (zrange_from 0 (Z.to_nat n2)))
+                    (zrange_from 0 (Z.to_nat n1)))
+      (zrange_from 0 (Z.to_nat n0)).
+Definition sel3 {A} (a : Z) (x0 x1 x2 : A) : A := if a =? 0 then x0 else if a =? 1 then x1 else x2.
+Definition is_perm3 (p0 p1 p2 : Z) : bool :=
+  (0 <=? p0) && (p0 <=? 2) && (0 <=? p1) && (p1 <=? 2) && (0 <=? p2) && (p2 <=? 2)
+  && negb (p0 =? p1) && negb (p0 =? p2) && negb (p1 =? p2).
+
+(* permute_spatial_axes(indices): axis k of the result is axis indices[k] of the input
+   (np.transpose + the same permutation of the affine's columns) *)
+Definition qvol_permute (p : list Z) (V : qvol) : res qvol :=
+  match p with
+  | [p0; p1; p2] =>
+      if negb (is_perm3 p0 p1 p2) then Err "ValueError"
+      else
+        let '(n0, n1, n2) := arr_shape (q_arr V) in
+        let d a := sel3 a (q_d0 V) (q_d1 V) (q_d2 V) in
+        let s a := sel3 a (q_s0 V) (q_s1 V) (q_s2 V) in
+        let n a := sel3 a n0 n1 n2 in
+        (* index along input axis a of the voxel that lands at (i0, i1, i2) *)
+        let o a i0 i1 i2 := if p0 =? a then i0 else if p1 =? a then i1 else i2 in
+        Ok (QVol (q_pos V) (d p0) (d p1) (d p2) (s p0) (s p1) (s p2)
+                 (build3 (n p0) (n p1) (n p2)
+                         (fun i0 i1 i2 => vox (q_arr V) (o 0 i0 i1 i2) (o 1 i0 i1 i2) (o 2 i0 i1 i2))))
+  | _ => Err "ValueError"
+  end.
+
+(* swap_spatial_axes(axis_1, axis_2) *)
+Definition qvol_swap (a b : Z) (V : qvol) : res qvol :=
+  if negb ((0 <=? a) && (a <=? 2) && (0 <=? b) && (b <=? 2)) then Err "ValueError"
+  else if a =? b then Err "ValueError"
+  else qvol_permute (map (fun k => if k =? a then b else if k =? b then a else k) [0; 1; 2]) V.
+
+(* flip_spatial(axes) = self[::-1 along every listed axis]: the origin moves to the
+   last voxel of a flipped axis, whose direction is negated *)
+Definition qvol_flip (axes : list Z) (V : qvol) : res qvol :=
+  if (3 <? Z.of_nat (length axes)) || existsb (fun a => negb ((0 <=? a) && (a <=? 2))) axes
+  then Err "ValueError"
+  else
+    let f a := existsb (Z.eqb a) axes in
+    let '(n0, n1, n2) := arr_shape (q_arr V) in
+    let fl (b : bool) (n i : Z) := if b then n - 1 - i else i in
+    let mv (b : bool) (n : Z) (s : Q) (d p : v3) :=
+      if b then vadd p (vscale (inject_Z (n - 1) * s)%Q d) else p in
+    let ng (b : bool) (d : v3) := if b then vscale (-1)%Q d else d in
+    Ok (QVol (mv (f 2) n2 (q_s2 V) (q_d2 V) (mv (f 1) n1 (q_s1 V) (q_d1 V) (mv (f 0) n0 (q_s0 V) (q_d0 V) (q_pos V))))
+             (ng (f 0) (q_d0 V)) (ng (f 1) (q_d1 V)) (ng (f 2) (q_d2 V)) (q_s0 V) (q_s1 V) (q_s2 V)
+             (build3 n0 n1 n2 (fun i0 i1 i2 => vox (q_arr V) (fl (f 0) n0 i0) (fl (f 1) n1 i1) (fl (f 2) n2 i2)))).
+
+Definition seg_from_qvol (V : qvol) (omit : bool) : stored :=
+  let '(_, n1, n2) := arr_shape (q_arr V) in
+  seg_from_volume (q_pos V) (q_d0 V) (q_d1 V) (q_d2 V) (q_s0 V) (q_s1 V) (q_s2 V) n1 n2 (q_arr V) omit.
+
+(* [get_volume_geometry(); get_volume(); get_volume(args); caller's memory untouched] of the segmentation
+   encoded from the volume a chain of Volume API calls returned; a refusal of one
+   of the calls is the outcome of all three observations *)
+Definition run_stored_vapi (allow_missing : bool) (rV : res qvol) (omit : bool) ss se rs re cs ce ai : val :=
+  match rV with
+  | Err k => VL [VErr k; VErr k; VErr k; VNone]
+  | Ok V => run_stored_hist allow_missing (seg_from_qvol V omit) ss se rs re cs ce ai
+  end.
